@@ -452,7 +452,7 @@ theorem stFor_dict {β ν δ : Type} (lib : Lib β ν δ) (m : Msg ν) (st : PSt
   unfold stFor dictFor
   cases hc : (m.compress && msgIsCompressible m)
   · simp
-  · cases hs : st.compression <;> simp
+  · cases hs : st.compression <;> simp [hs]
 
 theorem tryPack_decline {β ν δ : Type} (lib : Lib β ν δ) (m : Msg ν) (heap : Heap β) (st : PState β δ)
     (e : Decline) (h : preflight lib m heap = .error e) :
@@ -514,7 +514,7 @@ theorem tryPack_ok {β ν δ : Type} (lib : Lib β ν δ) (m : Msg ν) (heap : H
     cases r1 with
     | none =>
       simp only
-      refine ⟨p2, by rw [q5, hbuf]; exact p3, q1, q2, q3, q4, fun _ => ⟨rfl, rfl⟩, ?_⟩
+      refine ⟨p2, by rw [q5, hbuf]; exact p3, q1, q2, q3, q4, fun _ => by simp, ?_⟩
       intro b d' hb
       rw [← p1] at hb
       simp at hb
@@ -528,7 +528,7 @@ theorem tryPack_ok {β ν δ : Type} (lib : Lib β ν δ) (m : Msg ν) (heap : H
         rw [← p1] at hb
         simp only [Option.map, Option.some.injEq, Prod.mk.injEq] at hb
         have hoff := p5 off rfl
-        refine ⟨rfl, slice3 c.st.buf off, rfl, hb.1, ?_, ?_⟩
+        refine ⟨by simp, slice3 c.st.buf off, by simp, hb.1, ?_, ?_⟩
         · rw [← hb.1]; simp [slice3, List.length_take]; omega
         · rw [← hb.1]; simp [slice3, Slice.reachable]
 
